@@ -37,6 +37,8 @@ def entails_ax(ex, c, extra=(), tri=False, fast=False):
         return True
     if z3.is_false(c):
         return False
+    differs = bool(fast)            # the caller's numeric sampling says the two sides differ
+    fast = bool(fast) and bool(ex.__dict__.get('fast_ident'))       # short budgets only where the contract opted in (C08)
     hy = [h for h in ex.pc if isz(h)]
     key = (tuple(h.get_id() for h in hy), c.get_id(), tuple(e.get_id() for e in extra if isz(e)), bool(fast))
     hit = _ENTAILS_MEMO.get(key)
@@ -46,6 +48,10 @@ def entails_ax(ex, c, extra=(), tri=False, fast=False):
         r = _entails_ax(ex, c, extra, fast)
         _ENTAILS_MEMO[key] = (r, hy, c, list(extra))
     if r is None:
+        if differs:
+            # undecided by the solver, but sampled interpretations (real special functions, simple hypotheses) make the two sides
+            # differ: the negative answer is taken as such and the path is not marked
+            return False
         # undecided internal query: whatever is built on the negative answer must not be reported as a violation
         mark_incomplete(ex)
         return None if tri else False
